@@ -94,7 +94,7 @@ Definition float_bits_of (t : Z) (v : cval) : option Z :=
 Definition NC_FILL (t : Z) : Z (* as the integer or the bit pattern for floats *) :=
   if t =? 1 then -127 else if t =? 2 then 0 else if t =? 3 then -32767
   else if t =? 4 then -2147483647 else if t =? 5 then 2096103424 (* 0x7cf00000 *)
-  else if t =? 6 then 5160224234989977600 (* 0x479e000000000000 *)
+  else if t =? 6 then 5160562223013167104 (* 0x479e000000000000 *)
   else if t =? 7 then 255 else if t =? 8 then 65535 else if t =? 9 then 4294967295
   else if t =? 10 then -9223372036854775806 else if t =? 11 then 18446744073709551614 else 0.
 
